@@ -1,4 +1,462 @@
+mod model;
+use mc::report::{load_replay, run_replay};
+use mc::{Bounds, Known, Report, RunStats};
+use model::*;
+
+const MAX: u128 = u128::MAX;
+
+// actor indices of the default actor set A1 A2 S1 S2 X
+const A1: u8 = 0;
+const A2: u8 = 1;
+const S1: u8 = 2;
+const S2: u8 = 3;
+const X: u8 = 4;
+
+fn send(c: &[(u8, u128)]) -> M {
+    M::Send(c.iter().map(|(d, a)| (*d, Amt(*a))).collect())
+}
+
+/// C07's message kinds: every bank-send shape, burn, staking, distribution, wasm, ibc, gov, stargate (+2 in thorough)
+fn c07_kinds(thorough: bool) -> Vec<M> {
+    let mut k = vec![
+        send(&[(0, 1)]),
+        send(&[(0, 1), (1, 1)]),
+        send(&[(0, 1), (0, 1)]),
+        send(&[(0, 0)]),
+        send(&[]),
+        M::Burn(vec![(0, Amt(1))]),
+        M::Delegate,
+        M::Undelegate,
+        M::Redelegate,
+        M::SetWithdraw,
+        M::Withdraw,
+        M::WasmExec,
+        M::IbcTransfer,
+        M::GovVote,
+        M::Stargate,
+    ];
+    if thorough {
+        k.push(M::WasmInst);
+        k.push(M::Custom);
+    }
+    k
+}
+
+/// the empty list, every single kind, every ordered pair of kinds
+fn lists_of(kinds: &[M]) -> Vec<Vec<M>> {
+    let mut l = vec![vec![]];
+    for a in kinds {
+        l.push(vec![a.clone()]);
+    }
+    for a in kinds {
+        for b in kinds {
+            l.push(vec![a.clone(), b.clone()]);
+        }
+    }
+    l
+}
+
+/// C16's single messages: sends below / equal / above the allowance, second denomination, both,
+/// repeated denomination, zero, empty; and every other kind
+fn c16_msgs(thorough: bool) -> Vec<M> {
+    let mut m = vec![
+        send(&[(0, 1)]),
+        send(&[(0, 2)]),
+        send(&[(0, 3)]),
+        send(&[(1, 1)]),
+        send(&[(0, 1), (1, 1)]),
+        send(&[(0, 1), (0, 1)]),
+        send(&[(0, 2), (0, 1)]),
+        send(&[(0, 0)]),
+        send(&[(1, 0)]),
+        send(&[]),
+        M::Burn(vec![(0, Amt(1))]),
+        M::Burn(vec![]),
+        M::Delegate,
+        M::Undelegate,
+        M::Redelegate,
+        M::SetWithdraw,
+        M::Withdraw,
+        M::WasmExec,
+        M::WasmInst,
+        M::IbcTransfer,
+        M::GovVote,
+        M::Stargate,
+        M::Custom,
+    ];
+    if thorough {
+        m.extend([
+            send(&[(1, 2)]),
+            send(&[(0, 2), (1, 2)]),
+            send(&[(1, 1), (0, 1)]),
+            send(&[(0, 1), (1, 0)]),
+            send(&[(0, 0), (0, 0)]),
+            send(&[(0, 1), (0, 1), (0, 1)]),
+            send(&[(0, MAX)]),
+            send(&[(0, MAX), (0, 1)]),
+        ]);
+    }
+    m
+}
+
+fn tg(spender: u8, denoms: &[u8], cap: Option<u128>) -> GrantTarget {
+    GrantTarget {
+        spender,
+        denoms: denoms.to_vec(),
+        cap,
+    }
+}
+
+/// (configuration, depth bound) pairs for a property and tier
+fn configs(prop: &str, thorough: bool) -> Vec<(Cfg, Option<usize>)> {
+    let mut out: Vec<(Cfg, Option<usize>)> = vec![];
+    let all16: Vec<u8> = (0..16).collect();
+    match prop {
+        "C07" => {
+            let lists = lists_of(&c07_kinds(thorough));
+            {
+                // whitelist: every admin list incl. the empty one, frozen and not
+                let mut c = Cfg::base("C07/whitelist/admin-sets", "C07", Kind::Whitelist);
+                c.actors = vec!["A1", "A2", "X"];
+                c.init_admins = vec![0, 1];
+                c.admin_callers = vec![0, 1, 2];
+                c.admin_lists = vec![vec![0], vec![0, 1], vec![1], vec![]];
+                c.freeze_callers = vec![0, 2];
+                c.exec_callers = vec![0, 1, 2];
+                c.exec_lists = lists.clone();
+                out.push((c, None));
+            }
+            {
+                // subkeys: S1 lives on an allowance (two denominations, expiring), S2 on permission flags,
+                // A2 is an admin that gets removed (and may keep a small allowance of its own)
+                let mut c = Cfg::base("C07/subkeys/allowance+permissions", "C07", Kind::Subkeys);
+                c.hmax = H0 + 2;
+                c.admin_callers = vec![A1, A2, X];
+                c.admin_lists = vec![vec![A1], vec![A1, A2]];
+                c.freeze_callers = if thorough { vec![A1, X] } else { vec![] };
+                c.grant_callers = vec![A1, X];
+                c.targets = vec![tg(S1, &[0, 1], Some(2)), tg(A2, &[0], Some(1))];
+                c.inc_amounts = vec![1, 2];
+                c.dec_amounts = vec![1];
+                c.inc_exps = vec![ExpA::Unset, ExpA::H(H0 + 1)];
+                c.perm_callers = vec![A1, X];
+                c.perm_targets = if thorough {
+                    vec![(S2, all16.clone()), (S1, vec![P_DELEGATE, 15])]
+                } else {
+                    vec![(S2, vec![0, P_DELEGATE, P_REDELEGATE, P_UNDELEGATE, P_WITHDRAW, 15])]
+                };
+                c.exec_callers = vec![A1, A2, S1, S2, X];
+                c.exec_lists = lists.clone();
+                out.push((c, None));
+            }
+            {
+                // one subkey holding both an allowance and permissions: mixed lists can succeed
+                let mut c = Cfg::base("C07/subkeys/one-subkey-with-both", "C07", Kind::Subkeys);
+                c.hmax = H0 + 1;
+                c.init_admins = vec![A1];
+                c.grant_callers = vec![A1, S1];
+                c.targets = vec![tg(S1, &[0, 1], Some(2))];
+                c.inc_amounts = vec![1, 2];
+                c.dec_amounts = vec![1];
+                c.inc_exps = vec![ExpA::Unset, ExpA::T(T0 + DT)];
+                c.perm_callers = vec![A1, S1];
+                c.perm_targets = vec![(S1, if thorough { all16.clone() } else { vec![0, P_DELEGATE, P_WITHDRAW, 15] })];
+                c.exec_callers = vec![A1, S1, X];
+                c.exec_lists = lists.clone();
+                out.push((c, None));
+            }
+        }
+        "C08" => {
+            // sends a subkey tries: 1-2 coins, 1-2 messages, below / equal / above what is left, plus a
+            // list that mixes in a message it has no right to (must fail as a whole)
+            let s = |c: &[(u8, u128)]| send(c);
+            let mut spend: Vec<Vec<M>> = vec![
+                vec![s(&[(0, 1)])],
+                vec![s(&[(0, 2)])],
+                vec![s(&[(0, 3)])],
+                vec![s(&[(1, 1)])],
+                vec![s(&[(0, 1), (1, 1)])],
+                vec![s(&[(0, 1), (0, 1)])],
+                vec![s(&[(0, 1)]), s(&[(0, 1)])],
+                vec![s(&[(0, 1)]), s(&[(1, 1)])],
+                vec![s(&[(0, 2)]), s(&[(0, 1)])],
+                vec![s(&[(0, 1), (1, 1)]), s(&[(0, 1)])],
+                vec![s(&[(0, 1)]), M::Delegate],
+                vec![s(&[(0, 0)])],
+                vec![s(&[])],
+            ];
+            if thorough {
+                spend.extend([
+                    vec![s(&[(1, 2)])],
+                    vec![s(&[(0, 2), (1, 2)])],
+                    vec![s(&[(0, 1)]), s(&[(0, 1), (1, 1)])],
+                    vec![s(&[(1, 1)]), s(&[(1, 1)])],
+                    vec![s(&[(0, 3)]), s(&[(0, 1)])],
+                    vec![M::WasmExec, s(&[(0, 1)])],
+                ]);
+            }
+            {
+                let mut c = Cfg::base("C08/closed/two-subkeys", "C08", Kind::Subkeys);
+                c.hmax = if thorough { H0 + 3 } else { H0 + 2 };
+                c.grant_callers = if thorough { vec![A1, A2, S1, X] } else { vec![A1, S2, X] };
+                c.targets = vec![tg(S1, &[0, 1], Some(if thorough { 3 } else { 2 })), tg(S2, &[0, 1], Some(if thorough { 3 } else { 2 }))];
+                c.inc_amounts = if thorough { vec![0, 1, 2, 3] } else { vec![0, 1, 2] };
+                c.dec_amounts = if thorough { vec![0, 1, 2, 3] } else { vec![1, 2] };
+                c.inc_exps = if thorough {
+                    vec![ExpA::Unset, ExpA::Never, ExpA::H(H0), ExpA::H(H0 + 1), ExpA::H(H0 + 2), ExpA::T(T0), ExpA::T(T0 + DT)]
+                } else {
+                    vec![ExpA::Unset, ExpA::Never, ExpA::H(H0), ExpA::H(H0 + 1), ExpA::T(T0 + 2 * DT)]
+                };
+                c.dec_exps = if thorough { vec![ExpA::Unset, ExpA::H(H0 + 1), ExpA::H(H0 + 2), ExpA::T(T0)] } else { vec![ExpA::Unset, ExpA::H(H0 + 1)] };
+                c.exec_callers = vec![S1, S2];
+                c.exec_lists = spend.clone();
+                out.push((c, None));
+            }
+            {
+                // admins come and go; an admin may hold an allowance of its own; permissions exist and must not move
+                let mut c = Cfg::base("C08/closed/admins-change+permissions", "C08", Kind::Subkeys);
+                c.hmax = H0 + 1;
+                c.admin_callers = vec![A1, A2];
+                c.admin_lists = vec![vec![A1], vec![A1, A2], vec![A2]];
+                c.freeze_callers = vec![A1];
+                c.grant_callers = vec![A1, A2, S1];
+                c.targets = vec![tg(S1, &[0, 1], Some(2)), tg(A2, &[0], Some(2))];
+                c.inc_amounts = vec![1, 2];
+                c.dec_amounts = vec![1];
+                c.inc_exps = vec![ExpA::Unset, ExpA::H(H0 + 1)];
+                c.perm_callers = vec![A1, S1];
+                c.perm_targets = vec![(S1, vec![0, P_DELEGATE]), (S2, vec![15])];
+                c.exec_callers = vec![A2, S1, S2];
+                c.exec_lists = spend.iter().take(11).cloned().collect();
+                if !thorough {
+                    c.admin_lists = vec![vec![A1], vec![A1, A2]];
+                    c.targets = vec![tg(S1, &[0], Some(2)), tg(A2, &[0], Some(1))];
+                }
+                out.push((c, None));
+            }
+            {
+                // cumulative monitor (history in the state): depth-bounded
+                let mut c = Cfg::base("C08/monitor/relayed-vs-granted", "C08", Kind::Subkeys);
+                c.hmax = H0 + 2;
+                c.init_admins = vec![A1];
+                c.grant_callers = vec![A1];
+                c.targets = vec![tg(S1, &[0, 1], None)];
+                c.inc_amounts = vec![1, 2];
+                c.dec_amounts = vec![1];
+                c.inc_exps = vec![ExpA::Unset, ExpA::H(H0 + 1)];
+                c.exec_callers = vec![S1];
+                c.exec_lists = vec![
+                    vec![s(&[(0, 1)])],
+                    vec![s(&[(0, 2)])],
+                    vec![s(&[(0, 1), (1, 1)])],
+                    vec![s(&[(0, 1)]), s(&[(0, 1)])],
+                    vec![s(&[(0, 2)]), s(&[(0, 1)])],
+                ];
+                c.monitors = true;
+                out.push((c, Some(if thorough { 8 } else { 6 })));
+            }
+            {
+                // boundary amounts
+                let mut c = Cfg::base("C08/edge/u128", "C08", Kind::Subkeys);
+                c.hmax = H0 + 1;
+                c.init_admins = vec![A1];
+                c.grant_callers = vec![A1, X];
+                c.targets = vec![tg(S1, &[0, 1], None)];
+                c.inc_amounts = vec![1, (1u128 << 64) - 1, 1u128 << 64, MAX - 1, MAX];
+                c.dec_amounts = vec![1, MAX];
+                c.inc_exps = vec![ExpA::Unset, ExpA::H(H0 + 1)];
+                c.exec_callers = vec![S1];
+                c.exec_lists = vec![
+                    vec![s(&[(0, 1)])],
+                    vec![s(&[(0, MAX)])],
+                    vec![s(&[(0, MAX - 1)]), s(&[(0, 1)])],
+                    vec![s(&[(0, MAX), (0, 1)])],
+                    vec![s(&[(0, MAX)]), s(&[(0, MAX)])],
+                    vec![s(&[(0, 1u128 << 64)])],
+                ];
+                if !thorough {
+                    c.inc_amounts = vec![1, MAX - 1, MAX];
+                }
+                out.push((c, Some(if thorough { 5 } else { 4 })));
+            }
+        }
+        "C16" => {
+            let msgs = c16_msgs(thorough);
+            {
+                let mut c = Cfg::base("C16/whitelist/admin-sets", "C16", Kind::Whitelist);
+                c.actors = vec!["A1", "A2", "X"];
+                c.init_admins = vec![0, 1];
+                c.admin_callers = vec![0, 1];
+                c.admin_lists = vec![vec![0], vec![0, 1], vec![1], vec![], vec![2]];
+                c.freeze_callers = vec![0];
+                c.probe_senders = vec![0, 1, 2];
+                c.probe_msgs = msgs.clone();
+                out.push((c, None));
+            }
+            {
+                // allowances: granted, raised, lowered, spent (also down to nothing), expired by height and by time,
+                // zero-amount grants; the removed admin A2 keeps an allowance
+                let mut c = Cfg::base("C16/subkeys/allowances", "C16", Kind::Subkeys);
+                c.hmax = H0 + 2;
+                c.admin_callers = vec![A1];
+                c.admin_lists = vec![vec![A1], vec![A1, A2]];
+                c.grant_callers = vec![A1];
+                c.targets = if thorough { vec![tg(S1, &[0, 1], Some(3)), tg(A2, &[0, 1], Some(1))] } else { vec![tg(S1, &[0, 1], Some(2)), tg(A2, &[0], Some(1))] };
+                c.inc_amounts = if thorough { vec![0, 1, 2, 3] } else { vec![0, 1, 2] };
+                c.dec_amounts = vec![1];
+                c.inc_exps = if thorough {
+                    vec![ExpA::Unset, ExpA::Never, ExpA::H(H0 + 1), ExpA::H(H0 + 2), ExpA::T(T0 + DT)]
+                } else {
+                    vec![ExpA::Unset, ExpA::H(H0 + 1), ExpA::T(T0 + 2 * DT)]
+                };
+                if thorough {
+                    c.hmax = H0 + 3;
+                }
+                c.exec_callers = vec![S1, A2];
+                c.exec_lists = vec![vec![send(&[(0, 1)])], vec![send(&[(1, 1)])], vec![send(&[(0, 1), (1, 1)])]];
+                c.probe_senders = vec![A1, A2, S1, S2, X];
+                c.probe_msgs = msgs.clone();
+                out.push((c, None));
+            }
+            {
+                // permissions: every flag set, with and without an allowance next to it
+                let mut c = Cfg::base("C16/subkeys/permissions", "C16", Kind::Subkeys);
+                c.hmax = H0 + 1;
+                c.admin_callers = vec![A1];
+                c.admin_lists = vec![vec![A1], vec![A1, A2]];
+                c.freeze_callers = vec![A1];
+                c.grant_callers = vec![A1];
+                c.targets = if thorough { vec![tg(S2, &[0, 1], Some(1))] } else { vec![tg(S2, &[0], Some(1))] };
+                c.inc_amounts = vec![1];
+                c.dec_amounts = vec![1];
+                c.inc_exps = vec![ExpA::Unset, ExpA::H(H0 + 1)];
+                c.perm_callers = vec![A1];
+                c.perm_targets = if thorough { vec![(S2, all16.clone()), (A2, all16.clone())] } else { vec![(S2, all16.clone()), (A2, vec![0, 15])] };
+                c.exec_callers = vec![S2];
+                c.exec_lists = vec![vec![send(&[(0, 1)])]];
+                c.probe_senders = vec![A1, A2, S1, S2, X];
+                c.probe_msgs = msgs.clone();
+                out.push((c, None));
+            }
+        }
+        "C17" => {
+            let inits: Vec<(&str, Vec<u8>, bool)> = vec![
+                ("A1/mutable", vec![0], true),
+                ("A1,A2/mutable", vec![0, 1], true),
+                ("none/mutable", vec![], true),
+                ("A1/immutable", vec![0], false),
+                ("A1,A2/immutable", vec![0, 1], false),
+            ];
+            // actors: A1 A2 S X
+            for kind in [Kind::Whitelist, Kind::Subkeys] {
+                for (n, admins, mutable) in &inits {
+                    let kn = if kind == Kind::Whitelist { "whitelist" } else { "subkeys" };
+                    let mut c = Cfg::base(&format!("C17/{kn}/{n}"), "C17", kind);
+                    c.actors = vec!["A1", "A2", "S", "X"];
+                    c.init_admins = admins.clone();
+                    c.init_mutable = *mutable;
+                    c.hmax = H0 + 1;
+                    c.admin_callers = vec![0, 1, 2, 3];
+                    c.admin_lists = vec![vec![], vec![0], vec![1], vec![0, 1], vec![3], vec![0, 0]];
+                    c.freeze_callers = vec![0, 1, 2, 3];
+                    c.grant_callers = vec![0, 1, 2, 3];
+                    c.targets = if thorough { vec![tg(2, &[0, 1], Some(2)), tg(1, &[0], Some(2))] } else { vec![tg(2, &[0], Some(2)), tg(1, &[0], Some(1))] };
+                    c.inc_amounts = if thorough { vec![1, 2] } else { vec![1] };
+                    c.dec_amounts = vec![1];
+                    c.inc_exps = vec![ExpA::Unset, ExpA::H(H0 + 1)];
+                    c.dec_exps = vec![ExpA::Unset, ExpA::H(H0 + 2)];
+                    if thorough {
+                        c.hmax = H0 + 2;
+                    }
+                    c.perm_callers = vec![0, 1, 2, 3];
+                    // two holders of permissions: a grant held by one must not let it grant to the other
+                    c.perm_targets = vec![(2, if thorough { all16.clone() } else { vec![0, P_DELEGATE, P_WITHDRAW, 15] }), (1, vec![P_REDELEGATE])];
+                    c.exec_callers = vec![0, 1, 2, 3];
+                    c.exec_lists = vec![vec![send(&[(0, 1)])], vec![M::Delegate], vec![M::WasmExec], vec![]];
+                    out.push((c, None));
+                }
+            }
+        }
+        _ => {}
+    }
+    out
+}
+
+fn describe(prop: &str) -> (&'static str, &'static str) {
+    match prop {
+        "C07" => (
+            "grant machine: UpdateAdmins / Freeze / IncreaseAllowance / DecreaseAllowance (two denominations, height and time expiries) / SetPermissions (all 16 flag sets in thorough) by admins, removed admins and strangers, AdvanceBlock across the expiries; at every reachable state Execute{msgs} by every caller class (admin, second/removed admin, subkey with allowance, subkey with permissions, stranger) with the empty list, every single message kind and every ordered pair of kinds: bank send (1 coin, 2 coins, 2 coins of one denomination, zero coin, no coin), bank burn, staking delegate/undelegate/redelegate, distribution set-withdraw-address/withdraw-reward, wasm execute (+instantiate, custom in thorough), ibc transfer, gov vote, stargate. Successful calls of a subkey are real transitions (its allowance shrinks)",
+            "independent predicate covered(reference, caller, msgs) from the property text (admin: anything; otherwise every message a bank send within the unexpired allowance, cumulatively per denomination, or a staking/distribution message whose permission flag is set); Execute Ok => covered and Response.messages == the submitted list (same order and content, ReplyOn::Never, no gas limit, nothing added); Err => storage unchanged and nothing relayed; the reference grant state is compared with AdminList / Allowance / AllAllowances / Permissions after every step",
+        ),
+        "C08" => (
+            "IncreaseAllowance / DecreaseAllowance by admins, second admins, subkeys and strangers on two subkeys, two denominations, amounts {0,1,2,3} (u64/u128 boundary values in the edge configuration), expiries {none, never, height/time already reached, +1, +2 blocks}; Execute by subkeys (and an admin holding an allowance) with 1-2 bank sends of 1-2 coins below / at / above what remains, repeated denominations, zero and empty sends, lists mixing in a forbidden message; UpdateAdmins and SetPermissions in one configuration; AdvanceBlock across every expiry",
+            "reference ledger {subkey -> (denom -> amount, expiry)} compared with Allowance and the fully paged AllAllowances after every step (maps, zero = absent, expired = empty); accepted spend => allowance exists, unexpired, and per denomination the sum over all coins of all messages <= what was left, afterwards lower by exactly that; allowance rises only in an admin's IncreaseAllowance naming that subkey (on an expired allowance restart-from-zero and accumulate are both accepted), the resulting expiry lies in the future; falls only by an admin's DecreaseAllowance (saturating, entry gone when empty) or the subkey's own spending; no other subkey's allowance or permissions change in the step; monitor relayed <= granted in the depth-bounded configuration",
+        ),
+        "C16" => (
+            "every reachable state of the grant machine of both contracts (admin sets incl. empty, frozen, allowances granted / raised / lowered / spent to nothing / zero-amount / expired by height and by time, every permission flag set, every block up to the clock cap) x every sender class (admin, removed admin with and without grants, subkeys, stranger) x every single message: bank sends below / equal / above the allowance, other denomination, two coins, repeated denomination, zero, empty, burn, staking x3, distribution x2, wasm x2, ibc, gov, stargate, custom",
+            "CanExecute{sender,msg}.can_execute == (Execute{msgs:[msg]} by sender on a copy of the same state returns Ok); a failing query is a violation too",
+        ),
+        "C17" => (
+            "both contracts, initial admin sets [A1], [A1,A2], [] mutable and [A1], [A1,A2] immutable; UpdateAdmins{[],[A1],[A2],[A1,A2],[X],[A1,A1]}, Freeze, IncreaseAllowance, DecreaseAllowance, SetPermissions, Execute by A1, A2, the subkey and a stranger (who can become admin and be removed again), AdvanceBlock",
+            "reference {admins, mutable} == AdminList after every step; the reported list or flag changes only in an UpdateAdmins (list, to the submitted set) or Freeze (flag true->false) sent by a current admin while mutable, never once frozen or instantiated immutable; every step after which a subkey's Allowance reads higher / re-dated / newly created, or its Permissions differ, was sent by a current admin; a lower allowance comes from an admin or from the subkey's own spending",
+        ),
+        _ => ("", ""),
+    }
+}
+
+fn run(prop: &str, tier: &str) -> i32 {
+    let thorough = tier == "thorough";
+    let cfgs = configs(prop, thorough);
+    if cfgs.is_empty() {
+        eprintln!("fam-cw1 does not serve {prop}");
+        return 2;
+    }
+    let known = Known::load(prop);
+    let mut rep = Report::new(prop, tier, "cw1");
+    let (alpha, oracle) = describe(prop);
+    rep.alphabet = alpha.into();
+    rep.oracle = oracle.into();
+    rep.bounds = "closed configurations (capped grants, capped clock, finite admin lists) run to fixpoint: all histories over the alphabet; monitor / edge configurations to the stated depth; state cap 8e6, time cap per configuration".into();
+    rep.assumptions = vec![
+        "single-contract runtime: each call is an atomic transaction on the real cw1-whitelist / cw1-subkeys entry points; Response.messages are observed, not dispatched (whether a relayed message later succeeds at its destination is outside the proxy)".into(),
+        "amounts are {0..3} plus boundary values, two denominations, five actors; addresses are MockApi bech32 addresses; CanExecute is asked for valid sender addresses only".into(),
+        "message kinds gated behind cosmwasm_1_3 / cosmwasm_2_0 (FundCommunityPool, CosmosMsg::Any) are not in the alphabet".into(),
+    ];
+    use rayon::prelude::*;
+    let seed = mc::report::seed();
+    let runs: Vec<RunStats> = cfgs
+        .par_iter()
+        .map(|(c, d)| {
+            let m = Cw1Model { cfg: c.clone() };
+            let b = Bounds {
+                max_depth: *d,
+                max_states: 8_000_000,
+                max_secs: if thorough { 1500.0 } else { 100.0 },
+            };
+            mc::bfs(&m, &b, &known, seed)
+        })
+        .collect();
+    rep.runs = runs;
+    rep.finish()
+}
+
 fn main() {
-    eprintln!("fam-cw1: not built yet");
-    std::process::exit(2);
+    mc::world::silence_panics();
+    let a = mc::parse_args();
+    let code = if a.cmd == "replay" {
+        let rf = load_replay(a.path.as_deref().unwrap_or(""));
+        let all: Vec<(Cfg, Option<usize>)> = configs(&rf.property, true).into_iter().chain(configs(&rf.property, false)).collect();
+        // thorough and quick share configuration names; a replay must run on the alphabet that
+        // produced it, but actions are self-contained, so either definition replays it
+        match all.into_iter().find(|(c, _)| c.name == rf.config) {
+            Some((c, _)) => run_replay(&Cw1Model { cfg: c }, &rf),
+            None => {
+                eprintln!("machinery error: unknown config {}", rf.config);
+                2
+            }
+        }
+    } else {
+        run(&a.cmd, &a.tier)
+    };
+    std::process::exit(code);
 }
